@@ -935,6 +935,11 @@ pub fn run(mut ctx: Ctx) {
         ctx.finish("replay", "");
         return;
     }
+    // the witnesses of the known findings K2, K3, K4 (read faults: thorough tier only), so that they are exercised on every
+    // thorough run whatever the random schedules happen to reach
+    if ctx.thorough { if let Ok(c) = std::fs::read_to_string("/verif/corpus/system/cases-thorough.txt") {
+        for line in c.lines() { if let Some((cfg, open, script)) = parse_line(line) { let l = script.len(); run_case(&mut ctx, &mut rng, &sock, open, cfg, script, l, &Gen { faults_w: false, faults_r: true, crashes: false, lost: false, replay: false, coop: None, other: false, other_depth: 0, hold_first: 0, select_seed: parse_select_seed(line) }); ctx.count("corpus:known-findings"); } }
+    } }
     if let Ok(c) = std::fs::read_to_string("/verif/corpus/system/cases.txt") {
         for line in c.lines() { let od = parse_other(line); if let Some((cfg, open, script)) = parse_line(line) { let l = script.len(); run_case(&mut ctx, &mut rng, &sock, open, cfg, script, l, &Gen { faults_w: false, faults_r: false, crashes: false, lost: false, replay: false, coop: None, other: od.is_some(), other_depth: od.unwrap_or(0), hold_first: 0, select_seed: parse_select_seed(line) }); ctx.count("corpus"); } }
     }
